@@ -63,6 +63,9 @@ CLAIMED = {
  "C35": ("other", "must-pass-through, offset-table and who-may-read rules on the packet reader/writer",
          "Decides that no success path of the packet body/header readers bypasses the CRC comparison, the sequence-number test, the length-range and alignment tests or the zero-padding test; that the CRC operands are header[:12] then body on both sides with the same table; that header fields sit at the same offsets in writer and reader; that sequence counters are bumped exactly once per packet; that the trailer padding rule equals the reader's; and that the connection's reader is consumed only via io.ReadFull. 'Any corrupted byte is detected' is decided only as this necessary structure, not for the cipher or CRC mathematics.",
          "clause only; trusts hash/crc32, crypto/cipher, io.ReadFull", "DESIGN.md §3 C35"),
+ "C36": ("other", "who-may-write + control-dependence on the memory accounting, thread confinement on the VTA call graph, lockset for writeMu state, monotone-writer rule for ack prefixes",
+         "Does NOT decide exactly-once delivery (a schedule/fault property). Decides necessary structure: incoming-message memory is increased only under acquired+requested <= limit and decreased only after an underflow guard and followed by waking waiters; the accounting and the goRead/goWrite-local state are touched only by functions reachable from their documented owner goroutine and from no other goroutine root or exported API (the code's own 'no synchronization needed' comment, checked on the call graph); state shared between goroutines is accessed only under writeMu (including through c.incoming.transport.… paths and the conditional lock hand-over of goWriteStep, which is verified as a summary); every write to the three acknowledged-prefix fields is ++ or max(self, …).",
+         "clause only; the simulator file fuzz_transport.go is excluded (single-threaded harness)", "DESIGN.md §3 C36"),
  "C38": ("other", "lockset over client/server connection state (methods + every holder of the type), call-table pairing rules, who-may-write of call identity",
          "Decides the data-race clause for the connection state (every access to the call table, write queues, in-flight counters, status flags with the connection mutex held; Locked helpers called only under the lock) and the structural clauses of 'own response': calls registered under their own atomic-counter id, responses dispatched by the id decoded from their header, finishCall looks up/deletes/delivers the same entry, every delete from the call table delivers or returns the entry on all paths, pending calls are re-queued only while the connection is not closed and Close reaches every connection, and call ids/result channels are written only before registration. Scheduling, network faults and the race detector's dynamic judgement are not decided.",
          "clause only; closures passed to goroutines are analysed as unlocked code only when they touch guarded fields (none do)", "DESIGN.md §3 C38"),
